@@ -168,3 +168,26 @@ Definition c10_scopes (c : c10_case) : string :=
   let '(hs, tbl, f0, gs) := c in
   (scopes hs tbl (c10_world0 f0) [] (flat_map fst gs) ++ "="
    ++ scope_flags hs tbl (c10_world0 f0) (flat_map fst gs))%string.
+
+(** * The pruning of [clean_files] on a real directory
+
+    One [process]: the queued removals are cleaned with [clean_one] (snapshot given), then the
+    files written by the pass create their ancestors.  Compared with the directories seen on
+    disk afterwards. *)
+Record prune_case := mkPrune {
+  pr_snapshot : list path;
+  pr_files : list path;      (* files below the output folder before the process *)
+  pr_dirs : list path;       (* directories below (and including) the output folder before *)
+  pr_removed : list path;    (* remove_files *)
+  pr_written : list path;    (* files that exist afterwards and did not before *)
+  pr_dirs_after : list path
+}.
+
+Definition prune_model (k : prune_case) : list path :=
+  let '(files1, dirs1) :=
+    fold_left (fun st p => clean_one (pr_snapshot k) (fst st) (snd st) p) (pr_removed k)
+              (pr_files k, pr_dirs k) in
+  (dirs1 ++ flat_map ancestors (pr_written k))%list.
+
+Definition prune_check (k : prune_case) : bool :=
+  same_set path_eqb (prune_model k) (pr_dirs_after k).
